@@ -83,8 +83,8 @@ type headerMirror struct { // gen_header_rlp.go
 			Hash  [32]byte
 		}
 	}
-	Proposer                                                                               [20]byte
-	LastCommit, Tx, Validators, NextValidators, Consensus, App, Evidence                   [32]byte
+	Proposer                                                             [20]byte
+	LastCommit, Tx, Validators, NextValidators, Consensus, App, Evidence [32]byte
 }
 
 var (
